@@ -32,6 +32,7 @@ func init() {
 			{ID: "C15.R13", Text: "a stream that cannot be opened is reported to the fail-stop logic: openStream makes one request and returns its outcome — no loop, no sleep", Run: openOnce},
 			{ID: "C15.R14", Text: "open-all waits for all: every opener signals Done exactly once on every non-panicking path, Add(len(vbIDs)), Wait before return — and the same for the concurrent checkpoint load", Run: workersSignal("stream.stream).openAllStreams", "couchbase.cbMetadata).Load")},
 			{ID: "C15.R15", Text: "a checkpoint that cannot be read stops the start-up, a missing one does not (same rule as C02.R17)", Run: cbLoadReader},
+			{ID: "C15.R16", Text: "the high sequence numbers the guard compares with are complete and maximal: every node 1..NumServers() is asked and the merge keeps the largest report per vBucket (exhaustive)", Run: seqnoMerge},
 			{ID: "C15.R6", Text: "bounded reopen then fail-stop (same rule as C12.R3)", Run: c12r3},
 		},
 	})
